@@ -122,7 +122,7 @@ def check(ctx):
     ]
     ctx.rule("R1", "GC candidates are unlocked and os.remove is applied only to the selector's result", floor=5)
     ctx.rule("R2", "each per-unit selector returns only files[:k], files or [] of the oldest-first list; files() sorts ascending", floor=6)
-    ctx.rule("R3", "no slice bound `-n` is evaluated unless n > 0 is established (x[:-0] == [] trap)", floor=3)
+    ctx.rule("R3", "no slice bound `-n` is evaluated unless n > 0 is established (x[:-0] == [] trap)", floor=2)
     ctx.rule("R4", "removal is control-dependent on `force or size_over < hsize`", floor=1)
 
     mod = ctx.repo.module(JSON)
